@@ -39,6 +39,9 @@ let parse_decision (s : string) : M.decision =
     let text = String.map (fun c -> if c = '_' then ' ' else if c = '|' then '\n' else c) text in
     M.DRep (n_of_int (int_of_string code), bytes_of_string text)
 
+let is_nil_spec (t : string) : bool =
+  match split_on ':' t with _ :: _ :: _ :: "N" :: _ -> true | _ -> false
+
 let parse_msg (i : int) (t : string) : M.msg =
   match split_on ':' t with
   | from :: rc :: enc :: _kind :: _k :: _body :: ([] | [_]) ->
@@ -94,7 +97,9 @@ let run (toks : string list) : string =
     let cfg = { M.cf_helo = bytes_of_string "client.test"; M.cf_dsn = (ret <> "" || notify <> "");
                 M.cf_ret = bytes_of_string ret; M.cf_notify = bytes_of_string notify; M.cf_noop = (noop <> "0"); M.cf_tls = pol } in
     let script = if script = "-" then [] else List.map parse_decision (split_on ',' script) in
-    let ms = if msgs = "-" then [] else List.mapi parse_msg (split_on ';' msgs) in
+    (* a batch with nil entries: option messages; the run is that of the non-nil ones, results are re-aligned *)
+    let oms = if msgs = "-" then [] else
+        List.mapi (fun i t -> if is_nil_spec t then None else Some (parse_msg i t)) (split_on ';' msgs) in
     let strip_suffix full inner =
       let lf = String.length full and li = String.length inner in
       if li <= lf && String.sub full (lf - li) li = inner then Some (String.sub full 0 (lf - li)) else None in
@@ -147,26 +152,26 @@ let run (toks : string list) : string =
         let ms = if results = [] then "-" else String.concat ";" (List.map one results) in
         Printf.sprintf "%s M=%s" rhead ms
       | k -> "UNKNOWN-KIND-" ^ k in
-    let run_one ms =
-      let o = M.run_gen cfg caps caps_tls script ms render in
+    let run_one oms =
+      let o = M.run_gen cfg caps caps_tls script (M.somes oms) render in
       let dial_ok = (match o.M.o_ret with M.RetDial -> false | _ -> true) in
       let rk, j = ret_string o.M.o_ret in
-      obs kind dial_ok o.M.o_world o.M.o_results (Printf.sprintf "R=%s J=%d" rk j) in
+      obs kind dial_ok o.M.o_world (M.align oms o.M.o_results) (Printf.sprintf "R=%s J=%d" rk j) in
     let rec split_at k l = if k = 0 then ([], l) else match l with [] -> ([], []) | x :: t -> let (a, b) = split_at (k - 1) t in (x :: a, b) in
-    let half = (List.length ms + 1) / 2 in
+    let half = (List.length oms + 1) / 2 in
     (match prog with
-     | "two" -> let (a, b) = split_at half ms in run_one a ^ " || " ^ run_one b
+     | "two" -> let (a, b) = split_at half oms in run_one a ^ " || " ^ run_one b
      | "reset" | "conc" ->
-       let (a, b) = split_at (if prog = "conc" then min 1 (List.length ms) else half) ms in
-       let o = M.run_reset_gen (prog = "reset") cfg caps caps_tls script a b render in
+       let (a, b) = split_at (if prog = "conc" then min 1 (List.length oms) else half) oms in
+       let o = M.run_reset_gen (prog = "reset") cfg caps caps_tls script (M.somes a) (M.somes b) render in
        let dial_ok = (match o.M.p_ret1 with M.RetDial -> false | _ -> true) in
        let k1, j1 = ret_string o.M.p_ret1 and k2, j2 = ret_string o.M.p_ret2 in
        let rhead = match o.M.p_reset with
          | None when not dial_ok -> Printf.sprintf "R=%s J=%d" k1 j1
          | None -> Printf.sprintf "R=%s+%s+r- J=%d+%d" k1 k2 j1 j2
          | Some ok -> Printf.sprintf "R=%s+%s+r%s J=%d+%d" k1 k2 (boolc ok) j1 j2 in
-       obs kind dial_ok o.M.p_world (o.M.p_results1 @ o.M.p_results2) rhead
-     | _ -> run_one ms)
+       obs kind dial_ok o.M.p_world (M.align a o.M.p_results1 @ M.align b o.M.p_results2) rhead
+     | _ -> run_one oms)
   | _ -> "BAD-CASE-LINE"
 
 let () =
